@@ -29,6 +29,7 @@
 //                                         operator<< prints interfaces() / after free() and build() with swapped flags equal to the swapped one
 //   ST[e/i/n]                             self tests: enumset combine() and operator<< / InterfaceInformation members / build() on
 //                                         remote indices that are not in sync throws RemoteIndicesStateError
+//   DT[q:l.n,l.n/l.n ...]                the (entry, block length) lists of the send / receive MPI datatype per remote process   (deep)
 //   P<k>[G:l.j=v,... S:l.j=v,... D:v.v,v.v,... T:... M:q=n,...]   per phase: gather calls (in call order), scatter calls
 //                                         (in call order), source container, target container, (dest=count) of every send  (M deep)
 #include <config.h>
@@ -242,6 +243,28 @@ static void phases(const Case& c, int rank, Dune::BufferedCommunicator& bc, std:
   }
 }
 
+// ---- interposition: record the arguments of every MPI_Type_create_hindexed (the datatypes DatatypeCommunicator builds)
+struct HIdx { std::vector<int> len; std::vector<MPI_Aint> displ; };
+static std::vector<HIdx> g_hidx;
+extern "C" int MPI_Type_create_hindexed(int count, const int lens[], const MPI_Aint displs[], MPI_Datatype oldtype, MPI_Datatype* newtype)
+{
+  HIdx h; h.len.assign(lens, lens + count); h.displ.assign(displs, displs + count);
+  g_hidx.push_back(h);
+  return PMPI_Type_create_hindexed(count, lens, displs, oldtype, newtype);
+}
+// byte displacement relative to entry 0 -> local index of the entry that starts there (-1: none)
+static long entry_at(const SV& d, MPI_Aint displ) { return displ % (MPI_Aint) sizeof(double) == 0 ? (long) (displ / (MPI_Aint) sizeof(double)) : -1; }
+static long entry_at(const SV2& d, MPI_Aint displ) { return displ % (MPI_Aint) sizeof(FV2) == 0 ? (long) (displ / (MPI_Aint) sizeof(FV2)) : -1; }
+static long entry_at(const VBV& d, MPI_Aint displ)
+{
+  const char* base = (const char*) d.blocks[0].d.data();
+  for (std::size_t l = 0; l < d.blocks.size(); ++l) if ((const char*) d.blocks[l].d.data() - base == displ) return (long) l;
+  return -1;
+}
+template<class Data>
+static void dump_type(std::ostream& os, const HIdx& h, const Data& d)
+{ for (std::size_t i = 0; i < h.len.size(); ++i) os << (i ? "," : "") << entry_at(d, h.displ[i]) << "." << h.len[i]; }
+
 // ---- DatatypeCommunicator (MPI derived datatypes; copies only): phases 3 (forward) and 4 (backward), containers only
 template<class Data>
 struct BuildDT {
@@ -262,8 +285,20 @@ static void dt_phases(const Case& c, int rank, const RI& ri, std::ostream& os)
   Dune::DatatypeCommunicator<PIS> dc;
   if (c.seed % 2)                    // built before for all attributes: build() has to free the first set of datatypes/requests
     dc.build(ri, Dune::AllSet<Attr>(), src, Dune::AllSet<Attr>(), c.tc ? dstc : src);
+  g_hidx.clear();
   BuildDT<Data> b{&ri, &dc, &src, c.tc ? &dstc : &src, c.dst};
   Disp<0, BuildDT<Data> >::go(c.src, b);
+  {   // deep stream: createDataTypes<false>(receiveData) for every remote process, then createDataTypes<true>(sendData)
+    std::vector<int> procs; for (auto p = ri.begin(); p != ri.end(); ++p) procs.push_back(p->first);
+    const Data& rcv = c.tc ? dstc : src;
+    os << " DT[";
+    if (g_hidx.size() == 2 * procs.size())
+      for (std::size_t k = 0; k < procs.size(); ++k) {
+        os << (k ? " " : "") << procs[k] << ":"; dump_type(os, g_hidx[procs.size() + k], src); os << "/"; dump_type(os, g_hidx[k], rcv);
+      }
+    else os << "?" << g_hidx.size();
+    os << "]";
+  }
   for (int ph = 3; ph < 5; ++ph) {
     if (ph == 4) { retag(src, 4, rank, 0, szS); if (c.tc) retag(dstc, 4, rank, 1, szT); }     // same storage, fresh tags
     if (ph == 3) dc.forward(); else dc.backward();
